@@ -287,6 +287,12 @@ func (u *Unit) loadField(st *State, sk string, fld *types.Var, ref T) *V {
 	}
 	key := "F:" + sk + "." + fld.Name()
 	return u.loadLeaves(st, ft, func(l Leaf) T {
+		if l.Typ != nil && l.Sort == SInt {
+			switch l.Typ.Underlying().(type) {
+			case *types.Pointer, *types.Map:
+				u.markRefKey(key + l.Path)
+			}
+		}
 		return sel(u.heapGet(st, key+l.Path, arrSort(SInt, l.Sort)), ref)
 	})
 }
